@@ -26,17 +26,18 @@ type Violation struct {
 
 // Result is what every subcommand writes.
 type Result struct {
-	mu           sync.Mutex
-	Evaluations  int            `json:"evaluations"`
-	Distinct     int            `json:"distinct"`
-	Violations   []Violation    `json:"violations"`
-	Inconclusive []string       `json:"inconclusive"`
-	Samples      []any          `json:"samples"`
-	Counters     map[string]int `json:"counters"`
-	Notes        []string       `json:"notes"`
-	Segments     int            `json:"segments"`
-	TraceLines   int            `json:"trace_lines"`
-	distinct     map[string]bool
+	mu            sync.Mutex
+	Evaluations   int            `json:"evaluations"`
+	Distinct      int            `json:"distinct"`
+	Violations    []Violation    `json:"violations"`
+	Inconclusive  []string       `json:"inconclusive"`
+	Samples       []any          `json:"samples"`
+	Counters      map[string]int `json:"counters"`
+	Notes         []string       `json:"notes"`
+	Segments      int            `json:"segments"`
+	TraceLines    int            `json:"trace_lines"`
+	ExtraDistinct int            `json:"-"`
+	distinct      map[string]bool
 }
 
 func (r *Result) count(k string) { r.add(k, 1) }
@@ -94,7 +95,7 @@ func (r *Result) write(path string) {
 	if r.Violations == nil {
 		r.Violations = []Violation{}
 	}
-	r.Distinct = len(r.distinct)
+	r.Distinct = len(r.distinct) + r.ExtraDistinct
 	b, _ := json.MarshalIndent(r, "", " ")
 	if err := os.WriteFile(path, b, 0o644); err != nil {
 		fmt.Fprintln(os.Stderr, "cannot write result:", err)
